@@ -247,4 +247,21 @@ CHECKS = {
              "checks": {"quick": 2500, "thorough": 25000}, "shards": {"quick": 4, "thorough": 16}},
         ],
     },
+    "C09": {
+        "level_text": "Real shardManagerImpl instances (own isolated memberlist with in-memory transport so the real announcement path runs) driven by generated delivery orders / duplicates / delays of the real announcement bytes (captured by a guarded hook together with the recipients the code chose), real LocalState/MergeRemoteState snapshots (fresh and stale) and real NotifyLeave; exhaustive enumeration of all delivery orders (with one duplicate) for 6 claim scripts on 2 nodes x 1 shard; full truth table of the routing clause through the real Deliver*ToShardOwner.",
+        "technique": "stateful property-based testing with rapid over delivery schedules of real announcements + bounded exhaustive order enumeration; convergence predicate at quiescence; truth-table oracle for routing",
+        "level": "exploration",
+        "assumptions": [
+            "instances know each other (full state exchange first): the code announces only to peers it has merged state from",
+            "real memberlist gossip/sockets between instances and ReconcilePeerStreams' dialling are replaced by direct delivery to the real delegates; the microsecond window between a registration's Created stamp and its announcement's Timestamp is not explored",
+            "a node that left does not come back within a history",
+            "ownership is asserted as: at most one owner; the owner, if any, is the newest claimant; the newest claimant owns the shard while its stream is open",
+        ],
+        "parts": [
+            {"name": "convergence", "pkg": "proxy", "run": "^TestVF_C09_Convergence$",
+             "checks": {"quick": 1200, "thorough": 20000}, "shards": {"quick": 4, "thorough": 16}},
+            {"name": "orders", "pkg": "proxy", "run": "^TestVF_C09_Orders$", "rapid": False, "shards": {"quick": 2, "thorough": 4}},
+            {"name": "routing", "pkg": "proxy", "run": "^TestVF_C09_Routing$", "rapid": False},
+        ],
+    },
 }
